@@ -311,13 +311,17 @@ def cli_patch_rules(chk, root):
     from harness.checks.files import run_cli
     d = os.path.join(root, 'cli')
     os.makedirs(d)
-    xml = '<x><struct name="A"><member name="n" type="u32"/><member name="a" type="u8"><dimension size="2"/></member><member name="b" type="u8"/></struct></x>'
+    xml = ('<x><struct name="A"><member name="n" type="u32"/><member name="a" type="u8"><dimension size="2"/></member><member name="b" type="u8"/></struct>'
+           '<union name="U"><member name="a" type="u32" discriminatorValue="1"/><member name="b" type="u16" discriminatorValue="2"/></union></x>')
     open(os.path.join(d, 'a.xml'), 'w').write(xml)
     scripts = [
         (['Absent dynamic a n'], True), (['A dynamic a n'], True), (['A greedy b'], True), (['A limited a n'], True),
         (['A dynamic a missing'], False), (['A dynamic a b'], False), (['A greedy a'], False), (['A static a 0'], False),
         (['A limited b n'], False), (['A remove zz'], False), (['A type zz u8'], False), (['A frobnicate a'], False), (['A'], False),
         (['A rename a'], True), (['A insert x y z'], False),
+        # a union turned into a struct is a struct for the rules (and the checks) that follow
+        (['U struct'], True), (['U struct', 'U rename b c'], True), (['U struct', 'U rename b a'], False), (['U struct', 'U insert 0 b u8'], False),
+        (['U struct', 'U insert 999 a u64', 'U static a 3'], False), (['U rename b a'], False), (['A rename b a'], False), (['A insert 0 b u8'], False),
     ]
     for i, (lines, should_pass) in enumerate(scripts):
         p = os.path.join(d, 'p%d.txt' % i)
